@@ -31,7 +31,10 @@ OwnedClassLists == IF Alpha = "full" THEN {<<>>, <<0>>, <<0, 1>>, <<1, 0>>} ELSE
 OwnedFaults == IF Alpha = "full" THEN {"none", "attr", "opt1", "opt2"} ELSE {"none", "opt2"}
 
 Ops ==
-  {[op |-> "add_track", id |-> id, cls |-> c, v |-> 2] : id \in Ids, c \in Classes}
+  (* a track built externally (TrackBuilder) and inserted: with an ordinary observation, and with an attribute-only
+     observation (no feature, no observation attribute, only a track-attribute update: the update must be applied) *)
+  {[op |-> "add_track", id |-> id, cls |-> c, v |-> 2, u |-> "none"] : id \in Ids, c \in Classes}
+  \cup {[op |-> "add_track", id |-> id, cls |-> 0, v |-> 0, u |-> uu] : id \in Ids, uu \in (IF Alpha = "full" THEN {"ready", "tag1"} ELSE {"ready"})}
   \cup {[op |-> "add", id |-> id, cls |-> c, v |-> a[1], u |-> a[2], optfail |-> a[3]] : id \in Ids, c \in Classes, a \in AddVariants}
   \cup {[op |-> "fetch", ids |-> AscSeq(S)] : S \in (SUBSET Ids) \ {{}}}
   \cup {[op |-> "merge_owned", dst |-> d, src |-> s, classes |-> cl, all |-> al, remove |-> rm, hist |-> hf, fault |-> f] :
@@ -47,7 +50,7 @@ Valid(o) == o.op = "merge_owned" => (o.all => o.classes = <<>>) /\ (~o.all => o.
 
 UpdOf(k) == [kind |-> k]
 Exec(st, o) ==
-  CASE o.op = "add_track" -> OpAddTrack(st, T!Build(o.id, o.cls, o.v, T!NoUpd, FALSE).t)
+  CASE o.op = "add_track" -> OpAddTrack(st, T!Build(o.id, o.cls, o.v, UpdOf(o.u), FALSE).t)
     [] o.op = "add" -> OpAdd(st, o.id, o.cls, o.v, UpdOf(o.u), o.optfail)
     [] o.op = "fetch" -> OpFetch(st, {o.ids[i] : i \in DOMAIN o.ids})
     [] o.op = "merge_owned" -> OpMergeOwned(st, o.dst, o.src, o.classes, o.all, o.remove, o.hist, o.fault)
@@ -60,7 +63,7 @@ Step(o) == LET r == Exec(store, o) IN
            /\ store' = r.st
            /\ h' = Append(h, [o |-> o, ret |-> r.ret, notes |-> r.notes, proj |-> PJ(r.st)])
 PreOps == IF Pre = 0 THEN <<>>
-          ELSE <<[op |-> "add_track", id |-> 1, cls |-> 0, v |-> 2], [op |-> "add_track", id |-> 2, cls |-> 1, v |-> 2]>>
+          ELSE <<[op |-> "add_track", id |-> 1, cls |-> 0, v |-> 2, u |-> "none"], [op |-> "add_track", id |-> 2, cls |-> 1, v |-> 2, u |-> "none"]>>
 RECURSIVE Run(_, _, _)
 Run(st, hh, ops) ==
   IF ops = <<>> THEN [st |-> st, h |-> hh]
